@@ -371,7 +371,13 @@ def touched_then_rotten(seed):
     return rec, d
 
 
-def rep_block_corruption(seed):
+def rep_block_corruption_nocopy(seed):
+    """C10: the same history with -N (--force-nocopy, an option that tells SYNC not to use copies) given to check and fix: they
+    load the very state that was saved - the provisional hashes included - and find and repair the rotten block all the same"""
+    return rep_block_corruption(seed, nocopy=("-N",))
+
+
+def rep_block_corruption(seed, nocopy=()):
     """C05 / C19: a copy (cp -p to another disk) is recorded with provisional hashes (REP) by a sync that reaches only its first
     stripe; a block of the copy then rots silently: fix must notice it (the provisional hash is the hash of the original) and
     bring the right bytes back from the original"""
@@ -386,9 +392,11 @@ def rep_block_corruption(seed):
     a.clock += 10
     r, o = rec.sync("-B", "2"); d.append("sync -B 2 -> %s" % o["exit"])
     a.corrupt_block(1, "A", 2, "flip"); rec.env("corrupt 1/A[2] (a block with a provisional hash)", damage=True); d.append("corrupt 1/A[2]")
-    r, o = rec.check(); d.append("check -> %s" % o["exit"])
-    r, o = rec.fix(); d.append("fix -> %s" % o["exit"])
-    r, o = rec.check(); d.append("check -> %s" % o["exit"])
+    if nocopy:
+        r, o = rec.check("-a", *nocopy); d.append("check -a %s -> %s" % (" ".join(nocopy), o["exit"]))
+    r, o = rec.check(*nocopy); d.append("check %s -> %s" % (" ".join(nocopy), o["exit"]))
+    r, o = rec.fix(*nocopy); d.append("fix %s -> %s" % (" ".join(nocopy), o["exit"]))
+    r, o = rec.check(*nocopy); d.append("check %s -> %s" % (" ".join(nocopy), o["exit"]))
     a.clock += 10
     r, o = rec.sync(); d.append("sync -> %s" % o["exit"])
     r, o = rec.check(); d.append("check -> %s" % o["exit"])
